@@ -1,6 +1,6 @@
 (* C15 -- Element ids are unique unless a duplicate is reported.  Property theorems only. *)
 From Rimu Require Import Base Regex RegexParse Str Types Tables Guards State Inline Block
-  Frame FrameBlock FrameInst OptionsLemmas MiscLemmas.
+  Frame FrameBlock FrameInst OptionsLemmas MiscLemmas LowerCase LowerIds.
 
 (* the registry of allocated ids of every reachable session has no duplicates *)
 Theorem C15_nodup : forall s, reachable s -> NoDup (s_ids s).
@@ -25,4 +25,24 @@ Proof. exact str_of_N_inj. Qed.
 Print Assumptions C15_decimal_injective.
 
 Example C15_ex : slugify [$"a-2"; $"a"] $"A" = $"a-3" /\ slugify [] $"?!" = $"x".
+Proof. vm_compute. split; reflexivity. Qed.
+
+(* LOWER CASE.  Every id in the registry of every reachable session is lower-case: the only writer of the registry adds
+   lower(pending id), and lower() of the model (ASCII rule plus the table generated from the interpreter) is idempotent.
+   The frame obligation for the registry (Frame.fo_ids_cons) carries this premise, so a change that registers an id
+   without lower-casing it breaks the proof of every frame theorem *)
+Theorem C15_ids_lower_case : forall s, reachable s -> Forall (fun id => lower id = id) (s_ids s).
+Proof. exact reachable_ids_lower. Qed.
+Print Assumptions C15_ids_lower_case.
+
+Theorem C15_lower_idempotent : forall t, lower (lower t) = lower t.
+Proof. exact lower_idem. Qed.
+Print Assumptions C15_lower_idempotent.
+
+(* a generated header id is lower-case, with or without numeric suffix *)
+Theorem C15_slug_lower_case : forall ids text, lower (slugify ids text) = slugify ids text.
+Proof. exact slugify_lower. Qed.
+Print Assumptions C15_slug_lower_case.
+
+Example C15_ex_lower : lower [83; 116; 114; 97; 223; 101; 32; 196; 66; 45; 931] = [115; 116; 114; 97; 223; 101; 32; 228; 98; 45; 963] /\ slugify [$"hello-world"] $"Hello, World!" = $"hello-world-2".
 Proof. vm_compute. split; reflexivity. Qed.
